@@ -179,6 +179,8 @@ async fn run_async(ctx: &mut Ctx, which: Which) {
         let mut invalid_in_first_packet = false;
         let mut any_invalid = false;
         let mut extra_after_completion: Option<Enr> = None;
+        // every delivered packet is validated on arrival: an off-distance record in any of them bans
+        let mut must_ban_after_delivery = false;
         if !malicious {
             // honest: split into 1..4 packets, consistent total
             let npk = (1 + ctx.tape.choose(4) as usize).min(valid.len().max(1));
@@ -199,7 +201,7 @@ async fn run_async(ctx: &mut Ctx, which: Which) {
             }
         } else {
             ctx.fault("malicious_responder");
-            let kind = ctx.tape.choose(6);
+            let kind = ctx.tape.choose(8);
             let foreign: Vec<Enr> = universe.iter().copied().filter(|u| *u != p.peer && !p.distances.contains(&dist(&rid, &peer_id(*u)))).map(|u| peer_enr(u, 1)).collect();
             match kind {
                 0 => {
@@ -246,6 +248,27 @@ async fn run_async(ctx: &mut Ctx, which: Which) {
                     if let Some(f) = foreign.first() {
                         extra_after_completion = Some(f.clone());
                     }
+                }
+                6 | 7 => {
+                    // a multi-packet answer: 1-4 packets of an announced total of 2-5, a foreign record
+                    // in one of them, the rest withheld (the handler then reports a failure) or not
+                    let total = 2 + ctx.tape.choose(4) as u64;
+                    let n = 1 + ctx.tape.choose(total as u32) as usize;
+                    let bad_at = ctx.tape.choose(n as u32) as usize;
+                    for i in 0..n {
+                        let mut v: Vec<Enr> = valid.iter().skip(i).take(1).cloned().collect();
+                        if i == bad_at {
+                            if let Some(f) = foreign.get(i % foreign.len().max(1)) {
+                                v.push(f.clone());
+                                any_invalid = true;
+                                if i == 0 {
+                                    invalid_in_first_packet = true;
+                                }
+                            }
+                        }
+                        packets.push((total, v));
+                    }
+                    must_ban_after_delivery = any_invalid;
                 }
                 _ => {
                     // a single foreign record for whatever was asked (incl. a record request)
@@ -350,6 +373,9 @@ async fn run_async(ctx: &mut Ctx, which: Which) {
             if !malicious && banned && !banned_expected.contains(&p.peer) && !ctx.failed() {
                 let tags: Vec<&str> = if p.distances.contains(&0) && p.distances.len() > 1 { vec!["honest-banned", "distance-list-with-zero"] } else { vec!["honest-banned"] };
                 ctx.fail("c11.honest-responder-banned", format!("responder #{} answered FINDNODE {:?} exactly as the protocol prescribes and was banned", p.peer, p.distances), &tags);
+            }
+            if malicious && must_ban_after_delivery && !banned && !ctx.failed() {
+                ctx.fail("c11.malicious-responder-not-banned", format!("responder #{} returned a record outside distances {:?} in a multi-packet answer and was not banned", p.peer, p.distances), &["multi-packet"]);
             }
             if malicious && invalid_in_first_packet && !banned && !ctx.failed() {
                 ctx.fail("c11.malicious-responder-not-banned", format!("responder #{} returned a record outside distances {:?} and was not banned", p.peer, p.distances), &[]);
